@@ -70,7 +70,8 @@ pub fn format_dividend(
 
 /// Format a comment line
 pub fn format_comment(text: &str) -> String {
-    format!("# {}", text)
+    // A comment ends at the first line break, so free text must stay on one line.
+    format!("# {}", text.replace(['\r', '\n'], " "))
 }
 
 /// Generate header comments for a converted file
